@@ -844,7 +844,7 @@ func (d *driver) runConfig(c cfg, nops int, big bool) string {
 		default:
 			ok = wipe("Delete")
 		}
-		if ok && i%12 == 11 {
+		if ok && (i%20 == 19 || (nops > 2 && nops < 20 && i == nops-1)) {
 			ok = concurrentRound()
 		}
 		if !ok {
@@ -875,7 +875,7 @@ func (d *driver) runConfig(c cfg, nops int, big bool) string {
 func TestC35(t *testing.T) {
 	run := mon.Start(t, "C35", "exploration",
 		"every grid point (expectedNumberOfItems in {0,1,2,3,10,100,1e4,1e6,1e7,+one near the 2^32-bit limit in the thorough tier} x falsePositiveRate in {5e-324,1e-300,1e-12,1e-6,0.01,0.5,0.7,0.7071,0.7072,0.75,0.9,0.99,0.999999,1-2^-53,1,1+2^-52,0,-0.5,NaN,+Inf} x read-only-script option) that NewBloomFilter accepts gets a random history of "+
-			"Add/AddMulti (1-16 items, re-adds, duplicates, binary/long/unicode keys; about one item in seven is a degenerate item: the empty string (half of them) or a NUL/whitespace/one-byte/number-like/RESP-token/invalid-UTF-8/hash-block-boundary-length item, alone or at any position of a batch, as a member or as a never-added key)/Exists/ExistsMulti (members and fresh keys mixed in random positions)/Count/Reset/Delete against a reference set, about one add in five answered by the server with an error reply (OOM, READONLY, WRONGTYPE, script error) instead of being executed (an Add that returns nil then still counts as added), and after every 12th operation a concurrent round: 2-5 goroutines calling Add/AddMulti/Exists/ExistsMulti (1-3 items)/Count on the one filter value at the same time, free-running or all held together where a call asks the client for a command builder or hands the finished command over (items added before the round must be reported present by the round's queries, items whose add returned nil in the round by queries after it), the shipped Lua scripts executed by fakeredis+minilua; plus a characterisation sweep (n x rate around 1/sqrt(2)) with one Add+Exists+ExistsMulti each; "+
+			"Add/AddMulti (1-16 items, re-adds, duplicates, binary/long/unicode keys; about one item in seven is a degenerate item: the empty string (half of them) or a NUL/whitespace/one-byte/number-like/RESP-token/invalid-UTF-8/hash-block-boundary-length item, alone or at any position of a batch, as a member or as a never-added key)/Exists/ExistsMulti (members and fresh keys mixed in random positions)/Count/Reset/Delete against a reference set, about one add in five answered by the server with an error reply (OOM, READONLY, WRONGTYPE, script error) instead of being executed (an Add that returns nil then still counts as added), and after every 20th operation (and at the end of the short histories of the largest filters) a concurrent round: 2-5 goroutines calling Add/AddMulti/Exists/ExistsMulti (1-3 items)/Count on the one filter value at the same time, free-running or all held together where a call asks the client for a command builder or hands the finished command over (items added before the round must be reported present by the round's queries, items whose add returned nil in the round by queries after it), the shipped Lua scripts executed by fakeredis+minilua; plus a characterisation sweep (n x rate around 1/sqrt(2)) with one Add+Exists+ExistsMulti each; "+
 			"a case = (n, rate, option, hash functions seen on the wire, call kind, how many members / fresh keys were queried), non-trivial when a member was queried (or Count had a positive predecessor)")
 	defer run.Finish()
 	run.Assume("fakeredis BITFIELD/BITFIELD_RO/SET/DEL/INCRBY/GET and minilua execute the shipped scripts as Redis 7 would (harness self tests)",
